@@ -423,10 +423,8 @@ func ruleProviderScan(p *Program, r *Result, fn *ssa.Function) {
 	if u, ok := get.Common().Value.(*ssa.UnOp); ok && u.Op == token.MUL {
 		if ia, ok := u.X.(*ssa.IndexAddr); ok {
 			if _, isParam := ia.X.(*ssa.Parameter); isParam && isProviderSlice(ia.X.Type()) {
-				if bo, ok := ia.Index.(*ssa.BinOp); ok && bo.Op == token.ADD {
-					if ph, ok := bo.X.(*ssa.Phi); ok && isRangeIndexPhi(ph) {
-						ordered = true
-					}
+				if isAscendingIndex(ia.Index) {
+					ordered = true
 				}
 			}
 		}
@@ -541,6 +539,7 @@ func ruleBuildScopes(p *Program, r *Result) {
 		r.undecided("R-ADMIT", "build", "-", "UNRESOLVED: the function building the provider list from a ServerConfig")
 		return
 	}
+	build = p.view(build)
 	key := fnKey(build)
 	// providers appended in the order of the ranged Secrets slice
 	appended := false
@@ -724,3 +723,20 @@ func ruleAcceptRefusal(p *Program, r *Result) {
 }
 
 var _ = sort.Strings
+
+
+// isAscendingIndex: v is the index of a loop that visits 0, 1, 2, ... in order: the induction variable of a
+// range loop (φ+1 with φ starting at -1) or of a counting loop (φ starting at a constant, stepped by +1).
+func isAscendingIndex(v ssa.Value) bool {
+	if bo, ok := v.(*ssa.BinOp); ok && bo.Op == token.ADD {
+		if ph, ok := bo.X.(*ssa.Phi); ok && isRangeIndexPhi(ph) {
+			if c, ok := constInt(bo.Y); ok && c == 1 {
+				return true
+			}
+		}
+	}
+	if ph, ok := v.(*ssa.Phi); ok && isRangeIndexPhi(ph) {
+		return true
+	}
+	return false
+}
